@@ -4,7 +4,7 @@
    statement holds for any scalar structure S (reals, binary64) and for decks of
    any size. *)
 From Coq Require Import List NArith ZArith Bool String Ascii Lia.
-From T4V Require Import Base.Str Base.Scalar C17.Model C17.Proofs C17.ProofsStrings C17.ProofsSteps C17.ProofsClasses C17.ProofsSteps2.
+From T4V Require Import Base.Str Base.Scalar C17.Model C17.Proofs C17.ProofsStrings C17.ProofsSteps C17.ProofsClasses C17.ProofsSteps2 C17.ProofsSteps3 C17.LinkC06.
 Import ListNotations.
 Open Scope string_scope.
 
@@ -439,6 +439,47 @@ Theorem C17_arrives_options_more : forall T (S : Scalar T) trs,
 Proof. exact @p_C17_arrives_options_more. Qed.
 Print Assumptions C17_arrives_options_more.
 
+(* ... and FILL arrays written with plain numbers, nR and nJ ([items]), followed
+   by nothing, a TR number or an inline transformation; FILL=n (m) *)
+Theorem C17_arrives_options_arrays : forall T (S : Scalar T) trs,
+  (* a FILL array (first entry a plain number, then plain numbers, nR, nJ, the
+     counts adding up to size(ranges)) and whatever the transformation reader
+     accepts behind it *)
+  (forall e first rs t0 l more b m n rest k,
+     prefix "imp" (tsp e) = false -> contains_sub "fill" (tsp e) = true ->
+     has_colon first = true -> forallb has_colon rs = true -> has_colon t0 = false ->
+     parse_ranges (map tsp (first :: rs)) = Ok b ->
+     plain t0 -> items l m -> Z.of_nat (1 + m) = bounds_size b ->
+     fill_params S true (contains_char "*" (tsp e)) trs more = Ok (n, rest) ->
+     exists k', arrives S trs (e :: first :: rs ++ t0 :: l ++ more)%list k rest k' 1) /\
+  (* FILL=n (m) with an existing TR card m *)
+  (forall e u p rest k n,
+     prefix "imp" (tsp e) = false -> contains_sub "fill" (tsp e) = true ->
+     has_colon u = false -> float_lit (tsp u) = true ->
+     numeric_lead p = true -> num_lit (tsp p) = true -> stops rest ->
+     lookup (tint p) trs = Some n ->
+     exists k', arrives S trs (e :: u :: p :: rest) k rest k' 1) /\
+  (* what the transformation reader accepts: nothing or 2, 3, 6, 9, 12, 14+
+     numbers; one number naming a TR card *)
+  (forall isfill star (ps rest : list (tok (T:=T))),
+     forallb numeric_lead ps = true -> forallb (fun p => num_lit (tsp p)) ps = true ->
+     stops rest -> List.length ps <> 1%nat -> List.length ps <> 13%nat ->
+     tr_len_ok (List.length ps) = true ->
+     exists n, fill_params S isfill star trs (ps ++ rest)%list = Ok (n, rest)) /\
+  (forall isfill star (p : tok (T:=T)) rest k,
+     numeric_lead p = true -> num_lit (tsp p) = true -> stops rest ->
+     lookup (tint p) trs = Some k ->
+     fill_params S isfill star trs (p :: rest) = Ok (Nat.min k 12, rest)).
+Proof. exact @p_C17_arrives_options_arrays. Qed.
+Print Assumptions C17_arrives_options_arrays.
+
+(* FILL=0:1 0:1 0:0 3 3R : the entries behind the first one *)
+Example items_example : forall T (S : Scalar T), items [tk S "3r" 0]%Z 3.
+Proof.
+  intros. change 3%nat with (3 + 0)%nat. apply its_cons; [|apply its_nil].
+  apply it_rep; [reflexivity|reflexivity|auto].
+Qed.
+
 (* ---------------- the open finding classes, characterised ---------------- *)
 
 (* surplus_surface_params / gq_short_params: a card of an elementary mnemonic
@@ -485,6 +526,40 @@ Theorem C17_facet_skipped_cells_unchecked : forall T (S : Scalar T) (sm : smap) 
   forallb (not_converted S) cells = true -> stage_convert S sm all cells = Ok tt.
 Proof. exact @stage_convert_skips. Qed.
 Print Assumptions C17_facet_skipped_cells_unchecked.
+
+(* ---------------- linked with C06 (read-only import of C06.Model / C06.ProofsText) ---------------- *)
+
+(* every integer spelling of C06's model is read by Python's int() as modelled
+   here, hence every list of ranges C06 reads is read by C17's parse_ranges with
+   the same result *)
+Theorem C17_reads_c06_ranges_linked :
+  (forall s z, M6.int_of_signed s = Some z -> py_int s = Some z) /\
+  (forall strs bs, Forall2 T6.spells_range strs bs -> parse_ranges strs = Ok bs) /\
+  (forall bs, M6.size bs = bounds_size bs).
+Proof. exact (conj int_of_signed_py_int (conj spelled_ranges_read size_is_bounds_size)). Qed.
+Print Assumptions C17_reads_c06_ranges_linked.
+
+(* the FILL-array fault classes over BOTH models, on C06's hypotheses about the
+   spellings and C06's size: in C06's model the transformation tokens are
+   skipn (size bs) of the numeric tokens (C06_parse_fill_kw_flat); in C17's the
+   same tokens go to the transformation reader.  fill_array_surplus_* (C17) and
+   array_entry_transformation (C06) are two views of this one statement. *)
+Theorem C17_fill_array_surplus_linked : forall T (S : Scalar T) star trs
+    (ft : tok (T:=T)) (rts nts tl : list (tok (T:=T))) (bs : bounds),
+  let n := Z.to_nat (M6.size bs) in
+  Forall2 T6.spells_range (map tsp (ft :: rts)) bs ->
+  Forall (fun b : Z * Z => (fst b <= snd b)%Z) bs ->
+  Forall (fun t => T6.ends_plain t /\ M6.is_num_start t = true /\ M6.has_colon t = false) (map tsp nts) ->
+  (M6.size bs <= Z.of_nat (List.length nts))%Z -> T6.keyword_or_end (map tsp tl) ->
+  Forall (plain (T:=T)) (firstn n nts) ->
+  (forall k, M6.parse_fill_kw (tsp ft) (map tsp rts ++ map tsp nts ++ map tsp tl)%list = M6.Ok k ->
+             M6.fk_params k = map tsp (skipn n nts) /\ M6.fk_rest k = map tsp tl /\
+             M6.fk_bounds k = Some bs) /\
+  parse_fill S star trs (ft :: rts ++ nts ++ tl)%list =
+  bind (fill_params S true star trs (skipn n nts ++ tl)%list)
+       (fun p => Ok (mkFill (Some bs) (map (fun t => Some (tint t)) (firstn n nts)) (fst p), snd p)).
+Proof. exact @fill_array_surplus_linked. Qed.
+Print Assumptions C17_fill_array_surplus_linked.
 
 (* ---------------- which rejections name the problem ---------------- *)
 
